@@ -8,6 +8,7 @@ CONSTANTS
   MaxCells = 0
   OpClasses <- OpsStateless
   EmitMode <- ModeEdges
+  Plans <- NoPlans
 CONSTRAINT Bound
 ACTION_CONSTRAINT Emit
 VIEW absvars
